@@ -81,6 +81,9 @@ func sliceLitElems(v ssa.Value) ([]ssa.Value, bool) {
 // pathExpr renders a path-building expression in a flattened normal form:
 // join[elem, elem, ...] with nested Joins flattened, base(x), const, field,
 // param.
+var pathExprBind = map[*ssa.Parameter]ssa.Value{}
+var pathExprDepth int
+
 func pathExpr(v ssa.Value) []string {
 	if s, ok := constString(v); ok {
 		return []string{fmt.Sprintf("%q", s)}
@@ -100,9 +103,36 @@ func pathExpr(v ssa.Value) []string {
 			case "path.Base", "path/filepath.Base":
 				return []string{"base(" + strings.Join(pathExpr(x.Common().Args[0]), ",") + ")"}
 			}
+			// a module helper that computes the path: its returned expression, with the
+			// arguments in place of its parameters (one return, two levels)
+			if isModFunc(f) && f.Parent() == nil && len(f.Params) == len(x.Common().Args) && pathExprDepth < 2 {
+				var rets []*ssa.Return
+				for _, b := range f.Blocks {
+					if len(b.Instrs) > 0 {
+						if rt, ok := b.Instrs[len(b.Instrs)-1].(*ssa.Return); ok {
+							rets = append(rets, rt)
+						}
+					}
+				}
+				if len(rets) == 1 && len(rets[0].Results) == 1 {
+					for i, pa := range f.Params {
+						pathExprBind[pa] = x.Common().Args[i]
+					}
+					pathExprDepth++
+					out := pathExpr(rets[0].Results[0])
+					pathExprDepth--
+					for _, pa := range f.Params {
+						delete(pathExprBind, pa)
+					}
+					return out
+				}
+			}
 			return []string{"call:" + shortName(f)}
 		}
 	case *ssa.Parameter:
+		if bv, ok := pathExprBind[x]; ok {
+			return pathExpr(bv)
+		}
 		return []string{"param:" + x.Name()}
 	case *ssa.UnOp:
 		if x.Op == token.MUL {
